@@ -1,7 +1,7 @@
 import GarbleVerif.Proofs.BitOps
 import GarbleVerif.Proofs.SrcFrame
-/-! The bit-level evaluation of the core fragment (Model/BitSem.lean) agrees with the source
-semantics (Model/SrcSem.lean): values, absence of panics, and the first panic. -/
+/-! Operator-level lemmas: the bit-level operators of the core fragment (Model/BitSem.lean) against the
+source operators (Model/SrcSem.lean). -/
 namespace GV
 namespace Bit
 open Src
@@ -176,976 +176,6 @@ theorem cast_sound (ts td : STy) (va : Val) (x : List Bool) (h : Rel ts va x) :
       have hc := cast_int_int k k' n hn
       exact ⟨.int (Src.wrapTo k' n), rfl, ⟨hc.2, hc.1⟩⟩
 
-/-- what the theorem says about one expression / statement list for a given fuel -/
-def ExprOK (prog : Prog) (fuel : Nat) : Prop :=
-  ∀ e env benv t bs p', EnvRel env benv → bitExpr benv e = some (t, bs, p') →
-    (∀ v env', evalExpr fuel prog env e = .ok (v, env') → env' = env ∧ Rel t v bs ∧ p' = none) ∧
-    (∀ k, evalExpr fuel prog env e = .error (.panic k) → p' = some k)
-
-def StmtsOK (prog : Prog) (fuel : Nat) : Prop :=
-  ∀ ss env benv t bs p', EnvRel env benv → bitStmts benv ss = some (t, bs, p') →
-    (∀ v env', evalStmts fuel prog env ss = .ok (v, env') → (∃ pre, env' = pre ++ env) ∧ Rel t v bs ∧ p' = none) ∧
-    (∀ k, evalStmts fuel prog env ss = .error (.panic k) → p' = some k)
-
-theorem exprOK_zero (prog : Prog) : ExprOK prog 0 := by
-  intro e env benv t bs p' _ _
-  constructor <;> intros <;> simp_all [evalExpr]
-
-theorem stmtsOK_zero (prog : Prog) : StmtsOK prog 0 := by
-  intro ss env benv t bs p' _ _
-  constructor <;> intros <;> simp_all [evalStmts]
-
-theorem evalExpr_bin (fuel : Nat) (prog : Prog) (env : Src.Env) (op : Src.BinOp) (ty : Ty) (a b : Expr)
-    (h1 : op ≠ .land) (h2 : op ≠ .lor) :
-    evalExpr (fuel + 1) prog env (.bin op ty a b) =
-      (match evalExpr fuel prog env a with
-       | .error e => .error e
-       | .ok (x, env1) =>
-         match evalExpr fuel prog env1 b with
-         | .error e => .error e
-         | .ok (y, env2) =>
-           match Src.binop op ty x y with
-           | .ok r => .ok (r, env2)
-           | .error e => .error e) := by
-  cases op
-  case land => exact absurd rfl h1
-  case lor => exact absurd rfl h2
-  all_goals
-    rw [evalExpr]
-    rotate_left
-    · exact h1
-    · exact h2
-    rcases evalExpr fuel prog env a with e | ⟨x, env1⟩
-    · rfl
-    · dsimp only
-      rcases evalExpr fuel prog env1 b with e | ⟨y, env2⟩
-      · rfl
-      · dsimp only
-        rcases Src.binop _ ty x y with e | r <;> rfl
-
-theorem exprOK_succ (prog : Prog) (fuel : Nat) (ihE : ExprOK prog fuel) (ihS : StmtsOK prog fuel) :
-    ExprOK prog (fuel + 1) := by
-  intro e env benv t bs p' henv hb
-  cases e with
-  | bool b =>
-    simp only [bitExpr, Option.some.injEq, Prod.mk.injEq] at hb
-    obtain ⟨rfl, rfl, rfl⟩ := hb
-    constructor
-    · intro v env' h
-      simp only [evalExpr, Except.ok.injEq, Prod.mk.injEq] at h
-      obtain ⟨rfl, rfl⟩ := h
-      exact ⟨rfl, rfl, rfl⟩
-    · intro k h; simp [evalExpr] at h
-  | int n k =>
-    simp only [bitExpr] at hb
-    split at hb
-    · rename_i hr
-      simp only [Option.some.injEq, Prod.mk.injEq] at hb
-      obtain ⟨rfl, rfl, rfl⟩ := hb
-      constructor
-      · intro v env' h
-        simp only [evalExpr, Except.ok.injEq, Prod.mk.injEq] at h
-        obtain ⟨rfl, rfl⟩ := h
-        exact ⟨rfl, ⟨hr, rfl⟩, rfl⟩
-      · intro k h; simp [evalExpr] at h
-    · simp at hb
-  | var x =>
-    simp only [bitExpr] at hb
-    split at hb
-    · rename_i t' bs' hg
-      simp only [Option.some.injEq, Prod.mk.injEq] at hb
-      obtain ⟨rfl, rfl, rfl⟩ := hb
-      obtain ⟨v0, hv0, hrel⟩ := henv.lookup x _ _ hg
-      constructor
-      · intro v env' h
-        simp only [evalExpr, hv0, Except.ok.injEq, Prod.mk.injEq] at h
-        obtain ⟨rfl, rfl⟩ := h
-        exact ⟨rfl, hrel, rfl⟩
-      · intro k h; simp [evalExpr, hv0] at h
-    · simp at hb
-  | un op ty a =>
-    cases op with
-    | not =>
-      cases ty <;> simp only [bitExpr] at hb
-      case bool =>
-        split at hb
-        · rename_i b p1 ha
-          simp only [Option.some.injEq, Prod.mk.injEq] at hb
-          obtain ⟨rfl, rfl, rfl⟩ := hb
-          have ih := ihE a env benv _ _ _ henv ha
-          constructor
-          · intro v env' h
-            rw [evalExpr] at h
-            cases hev : evalExpr fuel prog env a with
-            | error er => simp [hev] at h
-            | ok res =>
-              obtain ⟨va, env1⟩ := res
-              obtain ⟨rfl, hrel, rfl⟩ := ih.1 va env1 hev
-              obtain ⟨b', rfl, hbs⟩ := hrel.bool_inv
-              simp only [List.cons.injEq, and_true] at hbs
-              subst hbs
-              simp only [hev, unop, Except.ok.injEq, Prod.mk.injEq] at h
-              obtain ⟨rfl, rfl⟩ := h
-              exact ⟨rfl, rfl, rfl⟩
-          · intro k h
-            rw [evalExpr] at h
-            cases hev : evalExpr fuel prog env a with
-            | error er =>
-              simp only [hev, Except.error.injEq] at h
-              subst h
-              exact ih.2 k hev
-            | ok res =>
-              obtain ⟨va, env1⟩ := res
-              obtain ⟨rfl, hrel, rfl⟩ := ih.1 va env1 hev
-              obtain ⟨b', rfl, _⟩ := hrel.bool_inv
-              simp [hev, unop] at h
-        · simp at hb
-      all_goals (simp at hb)
-    | neg =>
-      cases ty <;> simp only [bitExpr] at hb
-      case int k =>
-        split at hb
-        · rename_i hs
-          split at hb
-          · rename_i k' bs' p1 ha
-            split at hb
-            · rename_i hk
-              subst hk
-              simp only [Option.some.injEq, Prod.mk.injEq] at hb
-              obtain ⟨rfl, rfl, rfl⟩ := hb
-              have ih := ihE a env benv _ _ _ henv ha
-              constructor
-              · intro v env' h
-                rw [evalExpr] at h
-                cases hev : evalExpr fuel prog env a with
-                | error er => simp [hev] at h
-                | ok res =>
-                  obtain ⟨va, env1⟩ := res
-                  obtain ⟨rfl, hrel, rfl⟩ := ih.1 va env1 hev
-                  obtain ⟨n, rfl, hn, rfl⟩ := hrel.int_inv
-                  simp only [hev, unop, checked] at h
-                  have hng := negChecked_enc k' n hs hn
-                  cases hr : k'.inRange (-n)
-                  · simp [hr] at h
-                  · simp only [hr, if_true, Except.ok.injEq, Prod.mk.injEq] at h
-                    obtain ⟨rfl, rfl⟩ := h
-                    rw [hng.1 hr]
-                    exact ⟨rfl, ⟨hr, rfl⟩, rfl⟩
-              · intro kk h
-                rw [evalExpr] at h
-                cases hev : evalExpr fuel prog env a with
-                | error er =>
-                  simp only [hev, Except.error.injEq] at h
-                  subst h
-                  rw [ih.2 kk hev]; rfl
-                | ok res =>
-                  obtain ⟨va, env1⟩ := res
-                  obtain ⟨rfl, hrel, rfl⟩ := ih.1 va env1 hev
-                  obtain ⟨n, rfl, hn, rfl⟩ := hrel.int_inv
-                  simp only [hev, unop, checked] at h
-                  have hng := negChecked_enc k' n hs hn
-                  cases hr : k'.inRange (-n)
-                  · simp only [hr, Bool.false_eq_true, if_false, Except.error.injEq, Err.panic.injEq] at h
-                    subst h
-                    simp [hng.2 hr, seqP]
-                  · simp [hr] at h
-            · simp at hb
-          · simp at hb
-        · simp at hb
-      all_goals (simp at hb)
-  | cast src dst a =>
-    simp only [bitExpr] at hb
-    split at hb
-    · rename_i ts td hs hd
-      split at hb
-      · rename_i ta x p1 ha
-        split at hb
-        · rename_i hts
-          subst hts
-          simp only [Option.some.injEq, Prod.mk.injEq] at hb
-          obtain ⟨rfl, rfl, rfl⟩ := hb
-          have ih := ihE a env benv _ _ _ henv ha
-          have hsrc := ofTy_some hs
-          have hdst := ofTy_some hd
-          subst hsrc
-          subst hdst
-          constructor
-          · intro v env' h
-            rw [evalExpr] at h
-            cases hev : evalExpr fuel prog env a with
-            | error er => simp [hev] at h
-            | ok res =>
-              obtain ⟨va, env1⟩ := res
-              obtain ⟨rfl, hrel, rfl⟩ := ih.1 va env1 hev
-              obtain ⟨w, hw, hrw⟩ := cast_sound ta td va x hrel
-              simp only [hev, hw, Except.ok.injEq, Prod.mk.injEq] at h
-              obtain ⟨rfl, rfl⟩ := h
-              exact ⟨rfl, hrw, rfl⟩
-          · intro k h
-            rw [evalExpr] at h
-            cases hev : evalExpr fuel prog env a with
-            | error er =>
-              simp only [hev, Except.error.injEq] at h
-              subst h
-              exact ih.2 k hev
-            | ok res =>
-              obtain ⟨va, env1⟩ := res
-              obtain ⟨rfl, hrel, rfl⟩ := ih.1 va env1 hev
-              obtain ⟨w, hw, hrw⟩ := cast_sound ta td va x hrel
-              simp [hev, hw] at h
-        · simp at hb
-      · simp at hb
-    · simp at hb
-  | ite c tb fb =>
-    simp only [bitExpr] at hb
-    split at hb
-    · rename_i cb pc hc
-      split at hb
-      · rename_i tt tbits pt tf fbits pf ht hf
-        split at hb
-        · rename_i htt
-          subst htt
-          simp only [Option.some.injEq, Prod.mk.injEq] at hb
-          obtain ⟨rfl, rfl, rfl⟩ := hb
-          have ihc := ihE c env benv _ _ _ henv hc
-          constructor
-          · intro v env' h
-            rw [evalExpr] at h
-            cases hev : evalExpr fuel prog env c with
-            | error er => simp [hev] at h
-            | ok res =>
-              obtain ⟨vc, env1⟩ := res
-              obtain ⟨rfl, hrel, rfl⟩ := ihc.1 vc env1 hev
-              obtain ⟨b', rfl, hbs⟩ := hrel.bool_inv
-              simp only [List.cons.injEq, and_true] at hbs
-              subst hbs
-              cases cb with
-              | true =>
-                simp only [hev] at h
-                obtain ⟨rfl, hr, rfl⟩ := (ihE tb env1 benv _ _ _ henv ht).1 v env' h
-                exact ⟨rfl, by simpa using hr, rfl⟩
-              | false =>
-                simp only [hev] at h
-                obtain ⟨rfl, hr, rfl⟩ := (ihE fb env1 benv _ _ _ henv hf).1 v env' h
-                exact ⟨rfl, by simpa using hr, rfl⟩
-          · intro k h
-            rw [evalExpr] at h
-            cases hev : evalExpr fuel prog env c with
-            | error er =>
-              simp only [hev, Except.error.injEq] at h
-              subst h
-              rw [ihc.2 k hev]; rfl
-            | ok res =>
-              obtain ⟨vc, env1⟩ := res
-              obtain ⟨rfl, hrel, rfl⟩ := ihc.1 vc env1 hev
-              obtain ⟨b', rfl, hbs⟩ := hrel.bool_inv
-              simp only [List.cons.injEq, and_true] at hbs
-              subst hbs
-              cases cb with
-              | true =>
-                simp only [hev] at h
-                simpa [seqP] using (ihE tb env1 benv _ _ _ henv ht).2 k h
-              | false =>
-                simp only [hev] at h
-                simpa [seqP] using (ihE fb env1 benv _ _ _ henv hf).2 k h
-        · simp at hb
-      · simp at hb
-    · simp at hb
-  | block ss =>
-    simp only [bitExpr] at hb
-    have ih := ihS ss env benv _ _ _ henv hb
-    constructor
-    · intro v env' h
-      rw [evalExpr] at h
-      cases hev : evalStmts fuel prog env ss with
-      | error er => simp [hev] at h
-      | ok res =>
-        obtain ⟨v1, env1⟩ := res
-        obtain ⟨⟨pre, rfl⟩, hrel, rfl⟩ := ih.1 v1 env1 hev
-        simp only [hev, Except.ok.injEq, Prod.mk.injEq] at h
-        obtain ⟨rfl, rfl⟩ := h
-        exact ⟨restore_append pre env, hrel, rfl⟩
-    · intro k h
-      rw [evalExpr] at h
-      cases hev : evalStmts fuel prog env ss with
-      | error er =>
-        simp only [hev, Except.error.injEq] at h
-        subst h
-        exact ih.2 k hev
-      | ok res =>
-        obtain ⟨v1, env1⟩ := res
-        simp [hev] at h
-  | bin op ty a b =>
-    cases op
-    case land =>
-      simp only [bitExpr] at hb
-      split at hb
-      · rename_i x p1 ha
-        split at hb
-        · rename_i y p2 hbb
-          simp only [Option.some.injEq, Prod.mk.injEq] at hb
-          obtain ⟨rfl, rfl, rfl⟩ := hb
-          have iha := ihE a env benv _ _ _ henv ha
-          constructor
-          · intro v env' h
-            rw [evalExpr] at h
-            cases hev : evalExpr fuel prog env a with
-            | error er => simp [hev] at h
-            | ok res =>
-              obtain ⟨va, env1⟩ := res
-              obtain ⟨rfl, hrel, rfl⟩ := iha.1 va env1 hev
-              obtain ⟨x', rfl, hbs⟩ := hrel.bool_inv
-              simp only [List.cons.injEq, and_true] at hbs
-              subst hbs
-              cases x with
-              | false =>
-                simp only [hev, Except.ok.injEq, Prod.mk.injEq] at h
-                obtain ⟨rfl, rfl⟩ := h
-                exact ⟨rfl, rfl, rfl⟩
-              | true =>
-                simp only [hev] at h
-                obtain ⟨rfl, hr, rfl⟩ := (ihE b env1 benv _ _ _ henv hbb).1 v env' h
-                obtain ⟨y', rfl, hbs⟩ := hr.bool_inv
-                simp only [List.cons.injEq, and_true] at hbs
-                subst hbs
-                exact ⟨rfl, by simp [Rel], rfl⟩
-          · intro k h
-            rw [evalExpr] at h
-            cases hev : evalExpr fuel prog env a with
-            | error er =>
-              simp only [hev, Except.error.injEq] at h
-              subst h
-              rw [iha.2 k hev]; rfl
-            | ok res =>
-              obtain ⟨va, env1⟩ := res
-              obtain ⟨rfl, hrel, rfl⟩ := iha.1 va env1 hev
-              obtain ⟨x', rfl, hbs⟩ := hrel.bool_inv
-              simp only [List.cons.injEq, and_true] at hbs
-              subst hbs
-              cases x with
-              | false => simp [hev] at h
-              | true =>
-                simp only [hev] at h
-                simpa [seqP] using (ihE b env1 benv _ _ _ henv hbb).2 k h
-        · simp at hb
-      · simp at hb
-    case lor =>
-      simp only [bitExpr] at hb
-      split at hb
-      · rename_i x p1 ha
-        split at hb
-        · rename_i y p2 hbb
-          simp only [Option.some.injEq, Prod.mk.injEq] at hb
-          obtain ⟨rfl, rfl, rfl⟩ := hb
-          have iha := ihE a env benv _ _ _ henv ha
-          constructor
-          · intro v env' h
-            rw [evalExpr] at h
-            cases hev : evalExpr fuel prog env a with
-            | error er => simp [hev] at h
-            | ok res =>
-              obtain ⟨va, env1⟩ := res
-              obtain ⟨rfl, hrel, rfl⟩ := iha.1 va env1 hev
-              obtain ⟨x', rfl, hbs⟩ := hrel.bool_inv
-              simp only [List.cons.injEq, and_true] at hbs
-              subst hbs
-              cases x with
-              | true =>
-                simp only [hev, Except.ok.injEq, Prod.mk.injEq] at h
-                obtain ⟨rfl, rfl⟩ := h
-                exact ⟨rfl, rfl, rfl⟩
-              | false =>
-                simp only [hev] at h
-                obtain ⟨rfl, hr, rfl⟩ := (ihE b env1 benv _ _ _ henv hbb).1 v env' h
-                obtain ⟨y', rfl, hbs⟩ := hr.bool_inv
-                simp only [List.cons.injEq, and_true] at hbs
-                subst hbs
-                exact ⟨rfl, by simp [Rel], rfl⟩
-          · intro k h
-            rw [evalExpr] at h
-            cases hev : evalExpr fuel prog env a with
-            | error er =>
-              simp only [hev, Except.error.injEq] at h
-              subst h
-              rw [iha.2 k hev]; rfl
-            | ok res =>
-              obtain ⟨va, env1⟩ := res
-              obtain ⟨rfl, hrel, rfl⟩ := iha.1 va env1 hev
-              obtain ⟨x', rfl, hbs⟩ := hrel.bool_inv
-              simp only [List.cons.injEq, and_true] at hbs
-              subst hbs
-              cases x with
-              | true => simp [hev] at h
-              | false =>
-                simp only [hev] at h
-                simpa [seqP] using (ihE b env1 benv _ _ _ henv hbb).2 k h
-        · simp at hb
-      · simp at hb
-    all_goals
-      simp only [bitExpr] at hb
-      split at hb
-      · simp at hb
-      · rename_i t' hty
-        split at hb
-        · simp at hb
-        · rename_i ta x p1 ha
-          split at hb
-          · simp at hb
-          · rename_i tb' y p2 hbb
-            split at hb
-            · rename_i hts
-              obtain ⟨rfl, rfl⟩ := hts
-              split at hb
-              · rename_i tr r panics hbin
-                simp only [Option.some.injEq, Prod.mk.injEq] at hb
-                obtain ⟨rfl, rfl, rfl⟩ := hb
-                have iha := ihE a env benv _ _ _ henv ha
-                have hty' := ofTy_some hty
-                subst hty'
-                constructor
-                · intro v env' h
-                  rw [evalExpr_bin _ _ _ _ _ _ _ (by decide) (by decide)] at h
-                  cases hev : evalExpr fuel prog env a with
-                  | error er => simp [hev] at h
-                  | ok res =>
-                    obtain ⟨va, env1⟩ := res
-                    obtain ⟨rfl, hra, rfl⟩ := iha.1 va env1 hev
-                    have ihb := ihE b env1 benv _ _ _ henv hbb
-                    cases hevb : evalExpr fuel prog env1 b with
-                    | error er => simp [hev, hevb] at h
-                    | ok resb =>
-                      obtain ⟨vb, env2⟩ := resb
-                      obtain ⟨rfl, hrb, rfl⟩ := ihb.1 vb env2 hevb
-                      have hs := binBits_sound _ _ x y va vb tr r panics hra hrb hbin
-                      simp only [hev, hevb] at h
-                      split at h
-                      · rename_i rv hop
-                        simp only [Except.ok.injEq, Prod.mk.injEq] at h
-                        obtain ⟨rfl, rfl⟩ := h
-                        obtain ⟨hr, hp⟩ := hs.1 rv hop
-                        exact ⟨rfl, hr, by simp [seqP, hp]⟩
-                      · simp at h
-                · intro k h
-                  rw [evalExpr_bin _ _ _ _ _ _ _ (by decide) (by decide)] at h
-                  cases hev : evalExpr fuel prog env a with
-                  | error er =>
-                    simp only [hev, Except.error.injEq] at h
-                    subst h
-                    rw [iha.2 k hev]; rfl
-                  | ok res =>
-                    obtain ⟨va, env1⟩ := res
-                    obtain ⟨rfl, hra, rfl⟩ := iha.1 va env1 hev
-                    have ihb := ihE b env1 benv _ _ _ henv hbb
-                    cases hevb : evalExpr fuel prog env1 b with
-                    | error er =>
-                      simp only [hev, hevb, Except.error.injEq] at h
-                      subst h
-                      rw [ihb.2 k hevb]; rfl
-                    | ok resb =>
-                      obtain ⟨vb, env2⟩ := resb
-                      obtain ⟨rfl, hrb, rfl⟩ := ihb.1 vb env2 hevb
-                      have hs := binBits_sound _ _ x y va vb tr r panics hra hrb hbin
-                      simp only [hev, hevb] at h
-                      split at h
-                      · simp at h
-                      · rename_i er hop
-                        simp only [Except.error.injEq] at h
-                        subst h
-                        simp [seqP, hs.2 k hop]
-              · simp at hb
-            · simp at hb
-  | _ => simp [bitExpr] at hb
-
-theorem stmtsOK_succ (prog : Prog) (fuel : Nat) (ih : ∀ f, f ≤ fuel → ExprOK prog f ∧ StmtsOK prog f) :
-    StmtsOK prog (fuel + 1) := by
-  intro ss env benv t bs p' henv hb
-  cases fuel with
-  | zero =>
-    -- `evalStmt 0` is out of fuel
-    cases ss with
-    | nil => simp [bitStmts] at hb
-    | cons s rest =>
-      constructor
-      · intro v env' h
-        simp [evalStmts, evalStmt] at h
-      · intro k h
-        simp [evalStmts, evalStmt] at h
-  | succ f =>
-    have ihE := (ih f (by omega)).1
-    have ihS := (ih (f + 1) (by omega)).2
-    cases ss with
-    | nil => simp [bitStmts] at hb
-    | cons s rest =>
-      cases s with
-      | expr e =>
-        cases rest with
-        | nil =>
-          simp only [bitStmts] at hb
-          have ihe := ihE e env benv _ _ _ henv hb
-          constructor
-          · intro v env' h
-            rw [evalStmts] at h
-            simp only [evalStmt] at h
-            cases hev : evalExpr f prog env e with
-            | error er => simp [hev] at h
-            | ok res =>
-              obtain ⟨v1, env1⟩ := res
-              simp only [hev, Except.ok.injEq, Prod.mk.injEq] at h
-              obtain ⟨rfl, rfl⟩ := h
-              obtain ⟨rfl, hr, rfl⟩ := ihe.1 v1 env1 hev
-              exact ⟨⟨[], rfl⟩, hr, rfl⟩
-          · intro k h
-            rw [evalStmts] at h
-            simp only [evalStmt] at h
-            cases hev : evalExpr f prog env e with
-            | error er =>
-              simp only [hev, Except.error.injEq] at h
-              subst h
-              exact ihe.2 k hev
-            | ok res =>
-              obtain ⟨v1, env1⟩ := res
-              simp [hev] at h
-        | cons s2 r2 => simp [bitStmts] at hb
-      | let_ pat e =>
-        cases pat with
-        | ident x =>
-          simp only [bitStmts] at hb
-          split at hb
-          · rename_i t1 bs1 p1 he
-            split at hb
-            · rename_i t2 bs2 p2 hrest
-              simp only [Option.some.injEq, Prod.mk.injEq] at hb
-              obtain ⟨rfl, rfl, rfl⟩ := hb
-              have ihe := ihE e env benv _ _ _ henv he
-              constructor
-              · intro v env' h
-                rw [evalStmts] at h
-                simp only [evalStmt] at h
-                cases hev : evalExpr f prog env e with
-                | error er => simp [hev] at h
-                | ok res =>
-                  obtain ⟨v1, env1⟩ := res
-                  obtain ⟨rfl, hr, rfl⟩ := ihe.1 v1 env1 hev
-                  simp only [hev, matchPat, List.cons_append, List.nil_append] at h
-                  have henv2 : EnvRel ((x, v1) :: env1) ((x, t1, bs1) :: benv) := EnvRel.cons hr henv
-                  cases rest with
-                  | nil => simp [bitStmts] at hrest
-                  | cons s2 r2 =>
-                    simp only at h
-                    obtain ⟨⟨pre, rfl⟩, hr2, rfl⟩ := (ihS _ _ _ _ _ _ henv2 hrest).1 v env' h
-                    exact ⟨⟨pre ++ [(x, v1)], by simp⟩, hr2, rfl⟩
-              · intro k h
-                rw [evalStmts] at h
-                simp only [evalStmt] at h
-                cases hev : evalExpr f prog env e with
-                | error er =>
-                  simp only [hev, Except.error.injEq] at h
-                  subst h
-                  rw [ihe.2 k hev]; rfl
-                | ok res =>
-                  obtain ⟨v1, env1⟩ := res
-                  obtain ⟨rfl, hr, rfl⟩ := ihe.1 v1 env1 hev
-                  simp only [hev, matchPat, List.cons_append, List.nil_append] at h
-                  have henv2 : EnvRel ((x, v1) :: env1) ((x, t1, bs1) :: benv) := EnvRel.cons hr henv
-                  cases rest with
-                  | nil => simp [bitStmts] at hrest
-                  | cons s2 r2 =>
-                    simp only at h
-                    simpa [seqP] using (ihS _ _ _ _ _ _ henv2 hrest).2 k h
-            · simp at hb
-          · simp at hb
-        | _ => simp [bitStmts] at hb
-      | letMut x e =>
-        simp only [bitStmts] at hb
-        split at hb
-        · rename_i t1 bs1 p1 he
-          split at hb
-          · rename_i t2 bs2 p2 hrest
-            simp only [Option.some.injEq, Prod.mk.injEq] at hb
-            obtain ⟨rfl, rfl, rfl⟩ := hb
-            have ihe := ihE e env benv _ _ _ henv he
-            constructor
-            · intro v env' h
-              rw [evalStmts] at h
-              simp only [evalStmt] at h
-              cases hev : evalExpr f prog env e with
-              | error er => simp [hev] at h
-              | ok res =>
-                obtain ⟨v1, env1⟩ := res
-                obtain ⟨rfl, hr, rfl⟩ := ihe.1 v1 env1 hev
-                simp only [hev] at h
-                have henv2 : EnvRel ((x, v1) :: env1) ((x, t1, bs1) :: benv) := EnvRel.cons hr henv
-                cases rest with
-                | nil => simp [bitStmts] at hrest
-                | cons s2 r2 =>
-                  simp only at h
-                  obtain ⟨⟨pre, rfl⟩, hr2, rfl⟩ := (ihS _ _ _ _ _ _ henv2 hrest).1 v env' h
-                  exact ⟨⟨pre ++ [(x, v1)], by simp⟩, hr2, rfl⟩
-            · intro k h
-              rw [evalStmts] at h
-              simp only [evalStmt] at h
-              cases hev : evalExpr f prog env e with
-              | error er =>
-                simp only [hev, Except.error.injEq] at h
-                subst h
-                rw [ihe.2 k hev]; rfl
-              | ok res =>
-                obtain ⟨v1, env1⟩ := res
-                obtain ⟨rfl, hr, rfl⟩ := ihe.1 v1 env1 hev
-                simp only [hev] at h
-                have henv2 : EnvRel ((x, v1) :: env1) ((x, t1, bs1) :: benv) := EnvRel.cons hr henv
-                cases rest with
-                | nil => simp [bitStmts] at hrest
-                | cons s2 r2 =>
-                  simp only at h
-                  simpa [seqP] using (ihS _ _ _ _ _ _ henv2 hrest).2 k h
-          · simp at hb
-        · simp at hb
-      | _ => simp [bitStmts] at hb
-
-/-- **soundness of the bit-level evaluation**, for every fuel -/
-theorem core_all (prog : Prog) : ∀ n f, f ≤ n → ExprOK prog f ∧ StmtsOK prog f
-  | 0, f, hf => by
-    have : f = 0 := by omega
-    subst this
-    exact ⟨exprOK_zero prog, stmtsOK_zero prog⟩
-  | n + 1, f, hf => by
-    rcases Nat.lt_or_ge f (n + 1) with h | h
-    · exact core_all prog n f (by omega)
-    · have : f = n + 1 := by omega
-      subst this
-      have ih := core_all prog n
-      exact ⟨exprOK_succ prog n (ih n (Nat.le_refl n)).1 (ih n (Nat.le_refl n)).2, stmtsOK_succ prog n ih⟩
-
-/-! ### programs of the fragment never get stuck (type soundness for the fragment) -/
-
-def NoStuckE (prog : Prog) (fuel : Nat) : Prop :=
-  ∀ e env benv t bs p', EnvRel env benv → bitExpr benv e = some (t, bs, p') →
-    ∀ w, evalExpr fuel prog env e ≠ .error (.stuck w)
-
-def NoStuckS (prog : Prog) (fuel : Nat) : Prop :=
-  ∀ ss env benv t bs p', EnvRel env benv → bitStmts benv ss = some (t, bs, p') →
-    ∀ w, evalStmts fuel prog env ss ≠ .error (.stuck w)
-
-theorem noStuckE_succ (prog : Prog) (fuel : Nat) (ihE : NoStuckE prog fuel) (ihS : NoStuckS prog fuel) :
-    NoStuckE prog (fuel + 1) := by
-  have okE : ExprOK prog fuel := (core_all prog fuel fuel (Nat.le_refl _)).1
-  have okS : StmtsOK prog fuel := (core_all prog fuel fuel (Nat.le_refl _)).2
-  intro e env benv t bs p' henv hb w h
-  cases e with
-  | bool b => simp [evalExpr] at h
-  | int n k => simp [evalExpr] at h
-  | var x =>
-    simp only [bitExpr] at hb
-    split at hb
-    · rename_i t' bs' hg
-      obtain ⟨v0, hv0, _⟩ := henv.lookup x _ _ hg
-      simp [evalExpr, hv0] at h
-    · simp at hb
-  | un op ty a =>
-    cases op with
-    | not =>
-      cases ty <;> simp only [bitExpr] at hb
-      case bool =>
-        split at hb
-        · rename_i b p1 ha
-          rw [evalExpr] at h
-          cases hev : evalExpr fuel prog env a with
-          | error er =>
-            simp only [hev, Except.error.injEq] at h
-            subst h
-            exact ihE a env benv _ _ _ henv ha w hev
-          | ok res =>
-            obtain ⟨va, env1⟩ := res
-            obtain ⟨rfl, hrel, _⟩ := (okE a env benv _ _ _ henv ha).1 va env1 hev
-            obtain ⟨b', rfl, _⟩ := hrel.bool_inv
-            simp [hev, unop] at h
-        · simp at hb
-      all_goals (simp at hb)
-    | neg =>
-      cases ty <;> simp only [bitExpr] at hb
-      case int k =>
-        split at hb
-        · split at hb
-          · rename_i k' bs' p1 ha
-            split at hb
-            · rename_i hk
-              subst hk
-              rw [evalExpr] at h
-              cases hev : evalExpr fuel prog env a with
-              | error er =>
-                simp only [hev, Except.error.injEq] at h
-                subst h
-                exact ihE a env benv _ _ _ henv ha w hev
-              | ok res =>
-                obtain ⟨va, env1⟩ := res
-                obtain ⟨rfl, hrel, _⟩ := (okE a env benv _ _ _ henv ha).1 va env1 hev
-                obtain ⟨n, rfl, _, _⟩ := hrel.int_inv
-                simp only [hev, unop, checked] at h
-                cases hr : k'.inRange (-n) <;> simp [hr] at h
-            · simp at hb
-          · simp at hb
-        · simp at hb
-      all_goals (simp at hb)
-  | cast src dst a =>
-    simp only [bitExpr] at hb
-    split at hb
-    · rename_i ts td hs hd
-      split at hb
-      · rename_i ta x p1 ha
-        split at hb
-        · rename_i hts
-          subst hts
-          have hsrc := ofTy_some hs
-          have hdst := ofTy_some hd
-          subst hsrc
-          subst hdst
-          rw [evalExpr] at h
-          cases hev : evalExpr fuel prog env a with
-          | error er =>
-            simp only [hev, Except.error.injEq] at h
-            subst h
-            exact ihE a env benv _ _ _ henv ha w hev
-          | ok res =>
-            obtain ⟨va, env1⟩ := res
-            obtain ⟨rfl, hrel, _⟩ := (okE a env benv _ _ _ henv ha).1 va env1 hev
-            obtain ⟨w', hw, _⟩ := cast_sound ta td va x hrel
-            simp [hev, hw] at h
-        · simp at hb
-      · simp at hb
-    · simp at hb
-  | ite c tb fb =>
-    simp only [bitExpr] at hb
-    split at hb
-    · rename_i cb pc hc
-      split at hb
-      · rename_i tt tbits pt tf fbits pf ht hf
-        rw [evalExpr] at h
-        cases hev : evalExpr fuel prog env c with
-        | error er =>
-          simp only [hev, Except.error.injEq] at h
-          subst h
-          exact ihE c env benv _ _ _ henv hc w hev
-        | ok res =>
-          obtain ⟨vc, env1⟩ := res
-          obtain ⟨rfl, hrel, _⟩ := (okE c env benv _ _ _ henv hc).1 vc env1 hev
-          obtain ⟨b', rfl, _⟩ := hrel.bool_inv
-          cases b' with
-          | true =>
-            simp only [hev] at h
-            exact ihE tb env1 benv _ _ _ henv ht w h
-          | false =>
-            simp only [hev] at h
-            exact ihE fb env1 benv _ _ _ henv hf w h
-      · simp at hb
-    · simp at hb
-  | block ss =>
-    simp only [bitExpr] at hb
-    rw [evalExpr] at h
-    cases hev : evalStmts fuel prog env ss with
-    | error er =>
-      simp only [hev, Except.error.injEq] at h
-      subst h
-      exact ihS ss env benv _ _ _ henv hb w hev
-    | ok res =>
-      obtain ⟨v1, env1⟩ := res
-      simp [hev] at h
-  | bin op ty a b =>
-    cases op
-    case land =>
-      simp only [bitExpr] at hb
-      split at hb
-      · rename_i x p1 ha
-        split at hb
-        · rename_i y p2 hbb
-          rw [evalExpr] at h
-          cases hev : evalExpr fuel prog env a with
-          | error er =>
-            simp only [hev, Except.error.injEq] at h
-            subst h
-            exact ihE a env benv _ _ _ henv ha w hev
-          | ok res =>
-            obtain ⟨va, env1⟩ := res
-            obtain ⟨rfl, hrel, _⟩ := (okE a env benv _ _ _ henv ha).1 va env1 hev
-            obtain ⟨x', rfl, _⟩ := hrel.bool_inv
-            cases x' with
-            | false => simp [hev] at h
-            | true =>
-              simp only [hev] at h
-              exact ihE b env1 benv _ _ _ henv hbb w h
-        · simp at hb
-      · simp at hb
-    case lor =>
-      simp only [bitExpr] at hb
-      split at hb
-      · rename_i x p1 ha
-        split at hb
-        · rename_i y p2 hbb
-          rw [evalExpr] at h
-          cases hev : evalExpr fuel prog env a with
-          | error er =>
-            simp only [hev, Except.error.injEq] at h
-            subst h
-            exact ihE a env benv _ _ _ henv ha w hev
-          | ok res =>
-            obtain ⟨va, env1⟩ := res
-            obtain ⟨rfl, hrel, _⟩ := (okE a env benv _ _ _ henv ha).1 va env1 hev
-            obtain ⟨x', rfl, _⟩ := hrel.bool_inv
-            cases x' with
-            | true => simp [hev] at h
-            | false =>
-              simp only [hev] at h
-              exact ihE b env1 benv _ _ _ henv hbb w h
-        · simp at hb
-      · simp at hb
-    all_goals
-      simp only [bitExpr] at hb
-      split at hb
-      · simp at hb
-      · rename_i t' hty
-        split at hb
-        · simp at hb
-        · rename_i ta x p1 ha
-          split at hb
-          · simp at hb
-          · rename_i tb' y p2 hbb
-            split at hb
-            · rename_i hts
-              obtain ⟨rfl, rfl⟩ := hts
-              split at hb
-              · rename_i tr r panics hbin
-                have hty' := ofTy_some hty
-                subst hty'
-                rw [evalExpr_bin _ _ _ _ _ _ _ (by decide) (by decide)] at h
-                cases hev : evalExpr fuel prog env a with
-                | error er =>
-                  simp only [hev, Except.error.injEq] at h
-                  subst h
-                  exact ihE a env benv _ _ _ henv ha w hev
-                | ok res =>
-                  obtain ⟨va, env1⟩ := res
-                  obtain ⟨rfl, hra, _⟩ := (okE a env benv _ _ _ henv ha).1 va env1 hev
-                  cases hevb : evalExpr fuel prog env1 b with
-                  | error er =>
-                    simp only [hev, hevb, Except.error.injEq] at h
-                    subst h
-                    exact ihE b env1 benv _ _ _ henv hbb w hevb
-                  | ok resb =>
-                    obtain ⟨vb, env2⟩ := resb
-                    obtain ⟨rfl, hrb, _⟩ := (okE b env1 benv _ _ _ henv hbb).1 vb env2 hevb
-                    have hns := binBits_not_stuck _ _ x y va vb tr r panics hra hrb hbin
-                    simp only [hev, hevb] at h
-                    split at h
-                    · simp at h
-                    · rename_i er hop
-                      simp only [Except.error.injEq] at h
-                      subst h
-                      exact hns.1 w hop
-              · simp at hb
-            · simp at hb
-  | _ => simp [bitExpr] at hb
-
-theorem noStuckS_succ (prog : Prog) (fuel : Nat)
-    (ih : ∀ f, f ≤ fuel → NoStuckE prog f ∧ NoStuckS prog f) : NoStuckS prog (fuel + 1) := by
-  intro ss env benv t bs p' henv hb w h
-  cases fuel with
-  | zero =>
-    cases ss with
-    | nil => simp [bitStmts] at hb
-    | cons s rest => simp [evalStmts, evalStmt] at h
-  | succ f =>
-    have ihE := (ih f (by omega)).1
-    have ihS := (ih (f + 1) (by omega)).2
-    have okE : ExprOK prog f := (core_all prog f f (Nat.le_refl _)).1
-    cases ss with
-    | nil => simp [bitStmts] at hb
-    | cons s rest =>
-      cases s with
-      | expr e =>
-        cases rest with
-        | nil =>
-          simp only [bitStmts] at hb
-          rw [evalStmts] at h
-          simp only [evalStmt] at h
-          cases hev : evalExpr f prog env e with
-          | error er =>
-            simp only [hev, Except.error.injEq] at h
-            subst h
-            exact ihE e env benv _ _ _ henv hb w hev
-          | ok res =>
-            obtain ⟨v1, env1⟩ := res
-            simp [hev] at h
-        | cons s2 r2 => simp [bitStmts] at hb
-      | let_ pat e =>
-        cases pat with
-        | ident x =>
-          simp only [bitStmts] at hb
-          split at hb
-          · rename_i t1 bs1 p1 he
-            split at hb
-            · rename_i t2 bs2 p2 hrest
-              rw [evalStmts] at h
-              simp only [evalStmt] at h
-              cases hev : evalExpr f prog env e with
-              | error er =>
-                simp only [hev, Except.error.injEq] at h
-                subst h
-                exact ihE e env benv _ _ _ henv he w hev
-              | ok res =>
-                obtain ⟨v1, env1⟩ := res
-                obtain ⟨rfl, hr, _⟩ := (okE e env benv _ _ _ henv he).1 v1 env1 hev
-                simp only [hev, matchPat, List.cons_append, List.nil_append] at h
-                have henv2 : EnvRel ((x, v1) :: env1) ((x, t1, bs1) :: benv) := EnvRel.cons hr henv
-                cases rest with
-                | nil => simp [bitStmts] at hrest
-                | cons s2 r2 =>
-                  simp only at h
-                  exact ihS _ _ _ _ _ _ henv2 hrest w h
-            · simp at hb
-          · simp at hb
-        | _ => simp [bitStmts] at hb
-      | letMut x e =>
-        simp only [bitStmts] at hb
-        split at hb
-        · rename_i t1 bs1 p1 he
-          split at hb
-          · rename_i t2 bs2 p2 hrest
-            rw [evalStmts] at h
-            simp only [evalStmt] at h
-            cases hev : evalExpr f prog env e with
-            | error er =>
-              simp only [hev, Except.error.injEq] at h
-              subst h
-              exact ihE e env benv _ _ _ henv he w hev
-            | ok res =>
-              obtain ⟨v1, env1⟩ := res
-              obtain ⟨rfl, hr, _⟩ := (okE e env benv _ _ _ henv he).1 v1 env1 hev
-              simp only [hev] at h
-              have henv2 : EnvRel ((x, v1) :: env1) ((x, t1, bs1) :: benv) := EnvRel.cons hr henv
-              cases rest with
-              | nil => simp [bitStmts] at hrest
-              | cons s2 r2 =>
-                simp only at h
-                exact ihS _ _ _ _ _ _ henv2 hrest w h
-          · simp at hb
-        · simp at hb
-      | _ => simp [bitStmts] at hb
-
-/-- programs of the fragment never get stuck, for every fuel -/
-theorem noStuck_all (prog : Prog) : ∀ n f, f ≤ n → NoStuckE prog f ∧ NoStuckS prog f
-  | 0, f, hf => by
-    have : f = 0 := by omega
-    subst this
-    constructor
-    · intro e env benv t bs p' _ _ w h; simp [evalExpr] at h
-    · intro ss env benv t bs p' _ _ w h; simp [evalStmts] at h
-  | n + 1, f, hf => by
-    rcases Nat.lt_or_ge f (n + 1) with h | h
-    · exact noStuck_all prog n f (by omega)
-    · have : f = n + 1 := by omega
-      subst this
-      have ih := noStuck_all prog n
-      exact ⟨noStuckE_succ prog n (ih n (Nat.le_refl n)).1 (ih n (Nat.le_refl n)).2, noStuckS_succ prog n ih⟩
 
 end Bit
 end GV
